@@ -20,7 +20,7 @@ var c19Names = []string{"TestS", "TestS/sub", "TestS/sub/deep", "TestT", "TestT#
 func checkC19(c *vkit.Ctx) {
 	c.P.Rule = "case = standalone history: 1-5 tests (names with nested subtests, `#01`, unicode, `%` verbs) each making 1-12 MatchStandaloneSnapshot / MatchStandaloneJSON calls, 1-3 executions per test, values = arbitrary bytes incl. lines ending in \\r, CRLF, NUL, no final newline, empty; three simulated processes: record, update run (random subset changes to shorter/longer values, update enabled), read-only replay; oracle per call: outcome vs slot model, file k of the test holds exactly the formatted bytes (kr/pretty for values, canonical pretty JSON which must be json.Valid for JSON), no other path touched; non-trivial = history with >=2 calls in some test or a hostile byte class or a `%` name; distinct by hash of history"
 	c.P.Assumptions = []string{"kr/pretty is the formatter of MatchStandaloneSnapshot values (trusted); tidwall/pretty with the default options is the canonical JSON form"}
-	n := c.N(2500, 100000)
+	n := c.N(3000, 100000)
 	for i := 0; i < n; i++ {
 		if !c.Mine(i) {
 			continue
@@ -48,6 +48,19 @@ func checkC19(c *vkit.Ctx) {
 				op.Val = genValue(r, api, nil, HistOpts{NoHuge: i%9 != 0}, h.Classes)
 				if r.IntN(6) == 0 {
 					op.Ext = ".txt"
+				}
+				if api == "sjson" && r.IntN(6) == 0 {
+					// a rejected call still consumes its ordinal: later calls keep their files
+					if r.IntN(2) == 0 {
+						bad, _ := vkit.InvalidJSON(r)
+						if !json.Valid([]byte(bad)) {
+							op.Val = Val{Kind: "json", S: bad, Form: "string"}
+							op.Fail = "invalid"
+						}
+					} else {
+						op.Fail = "matcher"
+					}
+					h.Classes["rejected-call-midway"] = true
 				}
 				tp.Ops = append(tp.Ops, op)
 			}
@@ -108,7 +121,7 @@ func runC19(c *vkit.Ctx, i int, h *History) {
 			return func(tp *TestPlan, idx int, op *Op) {
 				op.Upd = upd
 				mr := mutRand(c.P.Seed+int64(i), 2, tp.Name, idx)
-				if mr.IntN(3) != 0 {
+				if mr.IntN(3) != 0 || op.Fail != "" {
 					return
 				}
 				if op.API == "ssnap" {
@@ -124,7 +137,11 @@ func runC19(c *vkit.Ctx, i int, h *History) {
 			f := false
 			s.RunProcess(r, h, vkit.Mode{CI: r.IntN(2) == 0}, r.IntN(2) == 0, mutate(&f), func(o Op, res StepResult) bool {
 				c.Count("replay_calls", 1)
-				if res.Got != vkit.Passed || len(res.Problems) > 0 {
+				want := vkit.Passed
+				if o.Fail != "" {
+					want = vkit.Failed // a rejected call is rejected again, and still consumes its ordinal
+				}
+				if res.Got != want || len(res.Problems) > 0 {
 					stopped = true
 					d := firstErr(res.Signals)
 					if len(res.Problems) > 0 {
